@@ -35,15 +35,15 @@ fn to_event(c: &Change, range_length: Option<u32>) -> TextDocumentContentChangeE
 /// and returns the server's text after every batch (None = document unknown to the server).
 pub fn server_texts(initial: &str, batches: &[Vec<Change>]) -> Result<Vec<Option<String>>, String> {
     let uri = Url::parse(URI).unwrap();
-    // every second ranged event carries the (correct) rangeLength of the client's text
+    // in every second history all ranged events carry the (correct) rangeLength of the client's
+    // text (one policy per history: identical events of one notification stay identical)
     let mut cur = initial.to_string();
-    let mut n = 0usize;
+    let n = initial.len() + batches.iter().map(|b| b.len()).sum::<usize>() + batches.first().and_then(|b| b.first()).map(|c| c.text.len()).unwrap_or(0);
     let batches: Vec<Vec<TextDocumentContentChangeEvent>> = batches
         .iter()
         .map(|b| {
             b.iter()
                 .map(|c| {
-                    n += 1;
                     let len = match c.range {
                         Some((l1, c1, l2, c2)) if n % 2 == 0 => match (lsptext::offset(&cur, l1, c1), lsptext::offset(&cur, l2, c2)) {
                             (Some(a), Some(b)) if a <= b => Some(lsptext::utf16_len(&cur[a..b])),
